@@ -7,11 +7,13 @@ from paths import ptr_key, is_const, derives
 
 
 class PathCache:
-    def __init__(self, prog, eff):
+    def __init__(self, prog, eff, loop_bound=1):
         self.prog, self.eff = prog, eff
+        self.default = loop_bound
         self._c = {}
 
-    def get(self, fname, loop_bound=1, inline=()):
+    def get(self, fname, loop_bound=None, inline=()):
+        loop_bound = self.default if loop_bound is None else loop_bound
         key = (fname, loop_bound, tuple(sorted(inline)))
         if key not in self._c:
             self._c[key] = P.Executor(self.prog, self.eff, inline=inline, loop_bound=loop_bound).run(fname)
